@@ -294,6 +294,13 @@ def gen_unpriv_vmsa(rng):
     l1 = {0: (VM_TABLES + 0x1000) | dom_code << 5 | 1, 1: (VM_TABLES + 0x1400) | dom_test << 5 | 1, 0xFFF: section(0xFFF00000, 3, dom_code)}
     sec_ap = rng.choice([0, 1, 2, 3, 5, 6, 7])
     l1[2] = section(0, sec_ap, dom_test)
+    # a supersection (VA 0x01000000, 16 MiB) whose physical address has non-zero bits 39:36: those descriptor bits (8:5) are NOT a domain, a
+    # supersection always belongs to domain 0 (client here); the DACR field they would select as a domain number is manager when possible
+    ss_hi = dom_test if dom_kind == 'manager' else rng.randrange(1, 16)
+    ss_ap = rng.choice([0, 1, 2, 3, 5, 6, 7])
+    for i in range(16, 32):
+        l1[i] = ss_hi << 5 | 1 << 18 | (ss_ap >> 2) << 15 | (ss_ap & 3) << 10 | 0b10
+    devices.append({'kind': 'ram', 'begin': ss_hi << 36, 'end': (ss_hi << 36) + 0x1000})
     for i, v in l1.items():
         G.set_data(tables, 4 * i, v.to_bytes(4, 'little'))
     for i in range(256):
@@ -307,12 +314,16 @@ def gen_unpriv_vmsa(rng):
         kind = rng.choice(UNPRIV)
         off = 8 * rng.randrange(2, 100)
         mis = rng.choice([0, 0, 0, 1, 2, 3])
-        if rng.random() < 0.25:
+        dom = dom_kind
+        k_ = rng.random()
+        if k_ < 0.2:
             va, ap = VM_SEC + G.DATA + off + mis, sec_ap
+        elif k_ < 0.4:
+            va, ap, dom = 0x01000000 + off + mis, ss_ap, 'client'
         else:
             j = rng.randrange(5)
             va, ap = VM_WIN + 0x1000 * j + off + mis, aps[j]
-        tests.append({'kind': kind, 'rn_val': va, 'rt': rng.randrange(0, 8), 'rn': 8 + rng.randrange(0, 4), 'ap': ap})
+        tests.append({'kind': kind, 'rn_val': va, 'rt': rng.randrange(0, 8), 'rn': 8 + rng.randrange(0, 4), 'ap': ap, 'dom': dom})
     dacr = 1 << (2 * dom_code) | (1 if dom_kind == 'client' else 3) << (2 * dom_test)
     sys = {'sctlr': G.sctlr_value(m=1, a=0, u=1, te=thumb, tre=1, afe=0), 'prrr': 0x000AAAAA, 'nmrr': 0x40E040E0, 'ttbr0': VM_TABLES,       # TRE=0 ends in a declared-unimplemented hook
            'ttbr0_64': VM_TABLES, 'ttbr1': 0, 'ttbcr': 0, 'dacr': dacr}       # (the walker reads the 64-bit TTBR0 storage)
@@ -550,8 +561,9 @@ def run_unpriv(case):
                 continue
             if vm:
                 # translation tables: every byte of the access lies in one page; the domain is client (AP checked) or manager (never checked)
-                a_ = None if vm['domain'] == 'manager' else vmsa_ap_abort(tst['ap'], variant == 'plain', write)
-                dec, reg = ('ok' if vm['domain'] == 'manager' else ('unpredictable' if a_ is None else ('perm' if a_ else 'ok'))), None
+                dom_ = tst.get('dom', vm['domain'])
+                a_ = None if dom_ == 'manager' else vmsa_ap_abort(tst['ap'], variant == 'plain', write)
+                dec, reg = ('ok' if dom_ == 'manager' else ('unpredictable' if a_ is None else ('perm' if a_ else 'ok'))), None
                 fault_addr = addr
             else:
                 dec, reg = MPU.decide(regions, mval, br, addr, variant == 'plain', write)
@@ -565,7 +577,7 @@ def run_unpriv(case):
                             break
             aborted = (r.cpsr.value & 0x1F) == 0x17 and pre_mode != 0x17 or (pre_mode == 0x17 and r.pc_store_value() in (0x10, 0xFFFF0010, r.vbar.value + 16))
             ap = (regions[reg][2] >> 8) & 7 if reg is not None else (tst['ap'] if vm else -1)
-            b.cover.add('unpriv|%s|%s|%s|ap%d|%s|%s' % ('vmsa-' + vm['domain'] if vm else 'pmsa', kind, variant, ap, 'w' if write else 'r', 'abort' if aborted else 'ok'))
+            b.cover.add('unpriv|%s|%s|%s|ap%d|%s|%s' % ('vmsa-' + tst.get('dom', vm['domain']) + ('-ss' if (tst['rn_val'] >> 24) == 1 else '') if vm else 'pmsa', kind, variant, ap, 'w' if write else 'r', 'abort' if aborted else 'ok'))
             b.count('fault.mpu-deny' if dec != 'ok' else 'probe.mpu-allow')
             if dec == 'unpredictable':
                 continue
